@@ -39,6 +39,7 @@ func (p *Ptr) extend(e PathElem) *Ptr {
 
 type Cell struct {
 	fieldFresh map[string]*Term // freshness of containers stored into struct fields of this cell
+	fieldReg   map[string]*GVal // local slices stored into struct fields of this cell (the field aliases the local storage)
 	id     int
 	name   string
 	sort   *Sort
@@ -208,6 +209,8 @@ type loopInfo struct {
 	rangeBound *Term
 	rangePhi   *ssa.Phi
 	tracksErr  bool
+	entrySt    *State            // state when the loop was entered (for \entry(...))
+	entryVars  map[string]*GVal
 }
 
 func (ex *Exec) unsupp(format string, a ...interface{}) {
@@ -1000,6 +1003,9 @@ func (fr *Frame) mergeStates(preds []*ssa.BasicBlock, b *ssa.BasicBlock) *State 
 		for i := len(preds) - 1; i >= 0; i-- {
 			v, ok := fr.out[preds[i]].ghost[k]
 			if !ok {
+				if strings.HasPrefix(k, "sort") {
+					continue // record of the last sort.Stable call: only defined where one happened
+				}
 				v = TFalse
 			}
 			if t == nil {
@@ -1008,7 +1014,9 @@ func (fr *Frame) mergeStates(preds []*ssa.BasicBlock, b *ssa.BasicBlock) *State 
 				t = Ite(fr.edgeCond(preds[i], b), v, t)
 			}
 		}
-		st.ghost[k] = t
+		if t != nil {
+			st.ghost[k] = t
+		}
 	}
 	return st
 }
